@@ -113,7 +113,7 @@ PROPS = {
                    "Props.GenTie.HelloRule": ["hello_effects"]},
         assumptions=["the platform selector limit (512 sockets) is not reached", "rename is atomic with respect to process crashes"]),
     "C08": dict(
-        lean_core=["Props.C08"], lean_code=[], gen_funcs=[], harness="c08",
+        lean_core=["Props.GenTie.Params", "Props.C08"], lean_code=["Props.GenTie.FlushRule"], gen_funcs=["flush_effects"], harness="c08",
         assumptions=["SQLite: insert-or-ignore, immediate foreign keys, explicit transactions; an unordered SELECT returns rows in insertion (rowid) order",
                      "partial: histories in which a transaction id occurs in two stored blocks are the known finding D2"]),
     "C10": dict(
